@@ -1,7 +1,7 @@
 (* C02 proofs, part 7: without authorization and without "__skipErrors" keys in the data, an
    empty error list means the data is well-typed. *)
 From Coq Require Import Lia ZifyN ZifyBool.
-From Gv Require Import lib.Bytes lib.Json C02.Model C02.Spec C02.ProofsBase C02.ProofsExt C02.ProofsRefine
+From Gv Require Import lib.Bytes lib.Json C02.Model C02.Spec C02.ProofsBase C02.ProofsPaths C02.ProofsExt C02.ProofsRefine
      C02.ProofsWelltyped.
 Open Scope N_scope.
 
@@ -51,11 +51,12 @@ Proof.
 Qed.
 
 Lemma nonnull_error_nonempty : forall path p parent,
-  p = [] \/ (exists k, p = [k]) -> no_skip_errors parent = true -> nonnull_error path p parent <> [].
+  no_skip_errors parent = true -> nonnull_error path p parent <> [].
 Proof.
-  intros path p parent [-> | [k ->]] H; unfold nonnull_error; cbn [removelast get_path].
-  - discriminate.
-  - rewrite (nse_has_skip _ H). discriminate.
+  intros path p parent H. rewrite nonnull_error_skip_at.
+  destruct p as [|k r]; [discriminate|].
+  unfold skip_at. destruct (get_path (removelast (k :: r)) parent) as [anc|] eqn:Hg; [|discriminate].
+  rewrite (nse_has_skip anc) by (eapply nse_get_path; eauto). discriminate.
 Qed.
 
 (* ---- response paths of list items ---- *)
@@ -73,27 +74,32 @@ Proof. intros path H ->. discriminate H. Qed.
 Lemma app_nil_both : forall (a b : list gerr), a ++ b = [] -> a = [] /\ b = [].
 Proof. intros a b H. apply app_eq_nil in H. exact H. Qed.
 
+(* the value a node is walked on is an object (a field value) or the response path ends in a list
+   index below a named position (a list item) *)
+Definition pos_ok (parent : json) (path : rpath) : Prop :=
+  (exists m, parent = JObj m) \/ item_path_ok path = true.
+
 (* ---- no error -> well-typed ---- *)
 Definition noerr_wt (n : node) : Prop :=
-  forall as_item depth, plan_wf as_item depth n = true ->
+  forall depth, plan_wf depth n = true ->
   forall parent path tns,
-    (as_item = true -> is_obj_node n = false -> item_path_ok path = true) ->
+    (is_obj_node n = false -> pos_ok parent path) ->
     no_skip_errors parent = true ->
     snd (complete nd n parent path tns) = [] -> welltyped_b n parent tns = true.
 
 Lemma scalar_noerr : forall path p nl kind accept parent,
-  p = [] \/ (exists k, p = [k]) -> no_skip_errors parent = true ->
+  no_skip_errors parent = true ->
   snd (scalar_complete path p nl kind accept parent) = [] -> wt_scalar p nl accept parent = true.
 Proof.
-  intros path p nl kind accept parent Hp Hn H. unfold scalar_complete, wt_scalar in *.
-  pose proof (nonnull_error_nonempty path p parent Hp Hn) as Hne.
+  intros path p nl kind accept parent Hn H. unfold scalar_complete, wt_scalar in *.
+  pose proof (nonnull_error_nonempty path p parent Hn) as Hne.
   destruct (get_path p parent) as [x|]; [destruct x|];
     try (destruct nl; [reflexivity | cbn [snd] in H; contradiction]);
     match type of H with context [if ?c then _ else _] => destruct c end; auto; discriminate H.
 Qed.
 
 Lemma items_noerr : forall item path' tns depth,
-  noerr_wt item -> plan_wf true depth item = true -> path' <> [] ->
+  noerr_wt item -> plan_wf depth item = true -> path' <> [] ->
   forall items i, nse_items items = true ->
     snd (comp_items nd item path' tns items i) = [] -> wt_items item tns items = true.
 Proof.
@@ -101,7 +107,7 @@ Proof.
   cbn [nse_items] in Hn. apply andb_true_iff in Hn. destruct Hn as [Hn1 Hn2].
   rewrite comp_items_cons in H. cbn [wt_items].
   assert (snd (complete nd item it (path' ++ [PIdx i]) tns) = [] -> welltyped_b item it tns = true) as Hit.
-  { apply (IH true depth Hwf); auto. intros _ _. apply item_path_ok_snoc. exact Hpne. }
+  { apply (IH depth Hwf); auto. intros _. right. apply item_path_ok_snoc. exact Hpne. }
   destruct (complete nd item it (path' ++ [PIdx i]) tns) as [r0 e0] eqn:Hc. cbn [snd] in Hit.
   assert (e0 = [] /\ snd (comp_items nd item path' tns rest (i + 1)) = []) as [He0 Hrest].
   { destruct r0 as [t|].
@@ -113,12 +119,12 @@ Proof.
   rewrite (Hit He0). cbn [andb]. eapply IHr; eauto.
 Qed.
 
-Lemma fields_noerr : forall value path' tns' tn depth fs,
+Lemma fields_noerr : forall m path' tns' tn depth fs,
   Forall (fun f => noerr_wt (fval f)) fs -> fields_wf depth fs = true ->
-  no_skip_errors value = true ->
-  snd (comp_fields nd value path' tns' tn fs) = [] -> wt_fields value tns' fs = true.
+  no_skip_errors (JObj m) = true ->
+  snd (comp_fields nd (JObj m) path' tns' tn fs) = [] -> wt_fields (JObj m) tns' fs = true.
 Proof.
-  intros value path' tns' tn depth fs. induction fs as [|[name on pon auth child] rest IHr];
+  intros m path' tns' tn depth fs. induction fs as [|[name on pon auth child] rest IHr];
     intros HF Hwf Hn H; [reflexivity|].
   pose proof (Forall_inv HF) as Hch. cbn [fval] in Hch. pose proof (Forall_inv_tail HF) as HFr.
   change (field_wf depth (Fld name on pon auth child) && fields_wf depth rest = true) in Hwf.
@@ -127,67 +133,55 @@ Proof.
   rewrite comp_fields_cons in H. cbn [wt_fields].
   destruct (skip_field on pon tns'); [cbn [andb]; auto|].
   rewrite sp_denied_nd in H.
-  assert (snd (complete nd child value path' tns') = [] -> welltyped_b child value tns' = true) as Hc1.
-  { apply (Hch false (S depth) Hcw); auto. intros Hf. discriminate Hf. }
-  destruct (complete nd child value path' tns') as [r0 e0] eqn:Hc. cbn [snd] in Hc1.
-  assert (e0 = [] /\ snd (comp_fields nd value path' tns' tn rest) = []) as [He0 Hrest].
+  assert (snd (complete nd child (JObj m) path' tns') = [] -> welltyped_b child (JObj m) tns' = true) as Hc1.
+  { apply (Hch (S depth) Hcw); auto. intros _. left. eauto. }
+  destruct (complete nd child (JObj m) path' tns') as [r0 e0] eqn:Hc. cbn [snd] in Hc1.
+  assert (e0 = [] /\ snd (comp_fields nd (JObj m) path' tns' tn rest) = []) as [He0 Hrest].
   { destruct r0 as [t|].
-    - destruct (comp_fields nd value path' tns' tn rest) as [r2 e2]. cbn [snd] in *. apply app_nil_both. exact H.
+    - destruct (comp_fields nd (JObj m) path' tns' tn rest) as [r2 e2]. cbn [snd] in *. apply app_nil_both. exact H.
     - cbn [snd] in H. subst e0. specialize (Hc1 eq_refl).
-      rewrite (wt_complete_all child value _ _ Hc1) in Hc. discriminate Hc. }
+      rewrite (wt_complete_all child (JObj m) _ _ Hc1) in Hc. discriminate Hc. }
   rewrite (Hc1 He0). cbn [andb]. auto.
 Qed.
 
 Theorem noerr_wt_all : forall n, noerr_wt n.
 Proof.
-  induction n using node_ind'; intros as_item depth Hwf parent path tns Hpath Hn He.
-  - rewrite plan_wf_obj_eq in Hwf. apply andb_true_iff in Hwf. destruct Hwf as [Hps Hwf].
-    apply andb_true_iff in Hwf. destruct Hwf as [_ Hfwf].
-    assert (p = [] \/ exists k, p = [k]) as Hp01.
-    { destruct as_item; destruct p as [|k [|k2 r]]; try discriminate Hps; eauto. }
-    pose proof (nonnull_error_nonempty path p parent Hp01 Hn) as Hne.
+  induction n using node_ind'; intros depth Hwf parent path tns Hpath Hn He.
+  - rewrite plan_wf_obj_eq in Hwf. apply andb_true_iff in Hwf. destruct Hwf as [_ Hfwf].
+    pose proof (nonnull_error_nonempty path p parent Hn) as Hne.
     rewrite complete_obj_eq in He. rewrite welltyped_obj_eq. cbv zeta in He.
     destruct unres; [discriminate He|]. cbn [negb andb].
     destruct (get_path p parent) as [x|] eqn:Hg; [destruct x|];
       try (destruct nl; [reflexivity | cbn [snd] in He; contradiction]);
       try discriminate He.
     destruct (tn_bad ty poss (typename_of (JObj members))) eqn:Htb; [discriminate He|]. cbn [negb andb].
-    apply (fields_noerr (JObj members) (push_names path p) (typename_of (JObj members) :: tns)
+    apply (fields_noerr members (push_names path p) (typename_of (JObj members) :: tns)
                         (typename_of (JObj members)) depth fields H Hfwf).
     + eapply nse_get_path; eauto.
     + destruct (comp_fields nd (JObj members) (push_names path p) (typename_of (JObj members) :: tns)
                             (typename_of (JObj members)) fields) as [[l|] e]; exact He.
-  - rewrite plan_wf_arr_eq in Hwf. apply andb_true_iff in Hwf. destruct Hwf as [Hps Hiwf].
-    assert (p = [] \/ exists k, p = [k]) as Hp01.
-    { destruct as_item; destruct p as [|k [|k2 r]]; try discriminate Hps; eauto. }
-    pose proof (nonnull_error_nonempty path p parent Hp01 Hn) as Hne.
+  - rewrite plan_wf_arr_eq in Hwf.
+    pose proof (nonnull_error_nonempty path p parent Hn) as Hne.
     rewrite complete_arr_eq in He. rewrite welltyped_arr_eq.
     destruct (get_path p parent) as [x|] eqn:Hg; [destruct x|];
       try (destruct nl; [reflexivity | cbn [snd] in He; contradiction]);
       try discriminate He.
     assert (push_names path p <> []) as Hpne.
-    { unfold push_names. destruct as_item.
-      - destruct p; [|discriminate Hps]. cbn [map]. rewrite app_nil_r.
-        apply item_path_ok_nonempty. apply Hpath; reflexivity.
-      - destruct p as [|k r]; [discriminate Hps|]. cbn [map]. intros E. apply app_eq_nil in E. destruct E; discriminate. }
-    apply (items_noerr n (push_names path p) tns depth IHn Hiwf Hpne items 0).
+    { unfold push_names. destruct p as [|k r].
+      - cbn [map]. rewrite app_nil_r. cbn [get_path] in Hg. injection Hg as ->.
+        destruct (Hpath eq_refl) as [[m Hm]|Hok]; [discriminate Hm|].
+        apply item_path_ok_nonempty. exact Hok.
+      - cbn [map]. intros E. apply app_eq_nil in E. destruct E; discriminate. }
+    apply (items_noerr n (push_names path p) tns depth IHn Hwf Hpne items 0).
     + pose proof (nse_get_path _ _ _ Hn Hg) as Hni. rewrite nse_arr_eq in Hni. exact Hni.
     + destruct (comp_items nd n (push_names path p) tns items 0) as [[l|] e]; exact He.
   - cbn [complete] in He. cbn [welltyped_b]. eapply scalar_noerr; eauto.
-    pose proof (plan_wf_path _ _ _ Hwf eq_refl) as Hp. cbn [node_path] in Hp. destruct as_item; auto.
   - cbn [complete] in He. cbn [welltyped_b]. eapply scalar_noerr; eauto.
-    pose proof (plan_wf_path _ _ _ Hwf eq_refl) as Hp. cbn [node_path] in Hp. destruct as_item; auto.
   - cbn [complete] in He. cbn [welltyped_b]. eapply scalar_noerr; eauto.
-    pose proof (plan_wf_path _ _ _ Hwf eq_refl) as Hp. cbn [node_path] in Hp. destruct as_item; auto.
   - cbn [complete] in He. cbn [welltyped_b]. eapply scalar_noerr; eauto.
-    pose proof (plan_wf_path _ _ _ Hwf eq_refl) as Hp. cbn [node_path] in Hp. destruct as_item; auto.
   - cbn [complete] in He. cbn [welltyped_b]. eapply scalar_noerr; eauto.
-    pose proof (plan_wf_path _ _ _ Hwf eq_refl) as Hp. cbn [node_path] in Hp. destruct as_item; auto.
   - cbn [complete] in He. cbn [welltyped_b]. eapply scalar_noerr; eauto.
-    pose proof (plan_wf_path _ _ _ Hwf eq_refl) as Hp. cbn [node_path] in Hp. destruct as_item; auto.
-  - pose proof (plan_wf_path _ _ _ Hwf eq_refl) as Hp. cbn [node_path] in Hp.
-    assert (p = [] \/ exists k, p = [k]) as Hp01 by (destruct as_item; auto).
-    pose proof (nonnull_error_nonempty path p parent Hp01 Hn) as Hne.
+  - pose proof (nonnull_error_nonempty path p parent Hn) as Hne.
     cbn [complete] in He. cbn [welltyped_b].
     destruct (get_path p parent) as [x|] eqn:Hg; [destruct x|];
       try (destruct nl; [reflexivity | cbn [snd] in He; contradiction]);
@@ -195,10 +189,12 @@ Proof.
     destruct (mem_bytes s vs) eqn:Hv; cbn [negb] in He; [|discriminate He].
     destruct (mem_bytes s inacc) eqn:Hi; [|reflexivity].
     exfalso. cbn [snd] in He.
-    destruct as_item.
-    + subst p. specialize (Hpath eq_refl eq_refl). unfold item_path_ok in Hpath.
-      destruct (rev path) as [|[nm|ix] [|y r]]; try discriminate Hpath. discriminate He.
-    + destruct Hp as [k ->]. destruct (rev path) as [|[nm|ix] [|y r]]; discriminate He.
+    destruct p as [|k r].
+    + cbn [get_path] in Hg. injection Hg as ->.
+      destruct (Hpath eq_refl) as [[m Hm]|Hok]; [discriminate Hm|].
+      unfold item_path_ok in Hok.
+      destruct (rev path) as [|[nm|ix] [|y r]]; try discriminate Hok. discriminate He.
+    + destruct (rev path) as [|[nm|ix] [|y r']]; discriminate He.
   - reflexivity.
   - reflexivity.
   - reflexivity.
@@ -211,9 +207,9 @@ Theorem errors_iff_not_welltyped_lemma : forall root data,
 Proof.
   intros root data Hwf Hn. split.
   - intros He. destruct root; try discriminate Hwf.
-    assert (plan_wf true 0 (NObj path nullable tyname possible inaccessible unresolvable fields) = true) as Hp.
+    assert (plan_wf 0 (NObj path nullable tyname possible inaccessible unresolvable fields) = true) as Hp.
     { unfold root_wf in Hwf. destruct path; [|discriminate Hwf]. destruct nullable; [discriminate Hwf|].
       destruct unresolvable; [discriminate Hwf|]. exact Hwf. }
-    apply (noerr_wt_all _ true 0%nat Hp data [] []); auto; intros _ Hf; discriminate Hf.
+    apply (noerr_wt_all _ 0%nat Hp data [] []); auto; intros Hf; discriminate Hf.
   - intros Hw. rewrite (welltyped_projection_lemma root data Hwf Hw). reflexivity.
 Qed.
